@@ -1006,14 +1006,14 @@ def find_witness(pid, deep=True):
     if res is None and pid not in ("C09", "C14", "C03", "C12") and deep:
         sp = os.path.join(REPLAYS, "search-%s.json" % pid)
         # thorough tier: a larger budget and one more level of depth (bounded exploration, never counted as proof)
-        q = {"kind": "search", "property": pid, "depth": 4, "budget_ms": 45000 if _THOROUGH else 25000, "exclude": excl}
+        q = {"kind": "search", "property": pid, "depth": 4, "budget_ms": 90000, "exclude": excl}
         if _THOROUGH:
             q.update({"sample_ms": 45000, "sample_depth": 7, "seed": env_seed()})
         # clauses that are the executable form of the PROVED contracts (not of the ideal property) count only
         # together with a violation of the ideal clause in the same history
         q["require"] = {"C04": ["match_order.time_priority"], "C19": ["pop.fifo_order"]}.get(pid, [])
         if pid == "C19":
-            q.update({"target": "queue", "depth": 8 if _THOROUGH else 7, "budget_ms": 90000 if _THOROUGH else 25000, "sample_ms": 0})
+            q.update({"target": "queue", "depth": 8 if _THOROUGH else 7, "budget_ms": 120000 if _THOROUGH else 90000, "sample_ms": 0})
         json.dump(q, open(sp, "w"))
         rc, lines, err = run_replay(sp, timeout_s=((q["budget_ms"] + q.get("sample_ms", 0)) // 1000) + 15)
         _WITNESS_STATS[pid] = (err or "").strip().split("\n")[-1][:200]
